@@ -14,6 +14,7 @@ from rv.model import codecs as K
 from rv.model.bits import Expect
 from rv.util import B, CLASSES, call, exc_matches, mk, rb
 
+AMBIENT = ['bytealigned']      # an option this property does not depend on: a quarter of the cases run with it switched on
 PROP = 'C15'
 SHARDS = {'quick': 4, 'thorough': 16}
 RULE = ("a total classifier valid(dtype, length, value) written from the statement (integer ranges, allowed lengths per type, "
